@@ -156,7 +156,11 @@ def k3_task(envr, item):
                     cps.append(cp)
                 text = sym.s_from_chars(cps)
             sett[j] = PObj('AnsiSetting', {'_str': text})
-        s, info = shapes.build_ansistring(c, shape, 'a', settings=sett)
+        # the table is a dict in insertion order, which is not index order once a range was applied inside an older one
+        import itertools
+        perms = list(itertools.permutations(range(len(shape))))
+        order = perms[c.choice(len(perms))] if len(shape) > 1 else None
+        s, info = shapes.build_ansistring(c, shape, 'a', settings=sett, key_order=order)
         cl = CL_K3V if fn == 'is_formatting_valid' else CL_K3P
         run_contract(envr, c, 'AnsiString.' + fn, s, [], {}, cl)
     return ContractRun(body, CL_K3V if fn == 'is_formatting_valid' else CL_K3P, use=('K1',))
